@@ -19,6 +19,7 @@ THEOREMS = [
     "TornadoModel.C48.signature_eq_spec",
     "TornadoModel.C48.sortBy_perm",
     "TornadoModel.C48.sortBy_sorted",
+    "TornadoModel.C48.normParams_sorted",
 ]
 TRUSTED = [
     "HMAC-SHA1 and base64 of the digest are not modelled: the harness captures the (key, message) pair handed to "
@@ -41,7 +42,7 @@ RULE = ("parameter sets (0-8 pairs) over unreserved / reserved / non-ASCII alpha
 EXHAUSTIVE = {"quick": False, "thorough": False}
 CLAUSES = {
     "signature = HMAC-SHA1 over the RFC 5849 base string with the RFC 5849 key": "signature_eq_spec (from base_string_eq_spec, key10a_eq_spec) + tie (hmac.new capture)",
-    "percent-encoded and sorted parameter names and values": "normParams_eq_spec, escape_eq_spec, escape_chars, sortBy_perm, sortBy_sorted",
+    "percent-encoded and sorted parameter names and values": "normParams_eq_spec, escape_eq_spec, escape_chars, sortBy_perm, sortBy_sorted, normParams_sorted",
     "normalized URL": "base_uri_eq_spec",
     "encoded key": "key10a_eq_spec (1.0a); key10_eq_spec_partial / key10_eq_spec_refuted for _oauth_signature (known finding)",
 }
